@@ -426,7 +426,7 @@ Definition q_json_datum (t : ty) (v : pv) : bool :=
 Definition no_tag_outside_raw (x : pv) : bool := vshape (fun w => match w with PTag _ _ => false | _ => true end) x.
 
 Definition typed_region (route : nat) (t : ty) (x : pv) : nat :=
-  let enc_prem := [(vshape v_int_ok x, RG_bigint); (vshape v_no_pylist x, RG_typed_pylist);
+  let enc_prem := [(deep v_int_ok x, RG_bigint); (vshape v_int_ok x, RG_bigint); (vshape v_no_pylist x, RG_typed_pylist);
                    (vshape v_no_empty_ilist x, RG_typed_empty_ilist);
                    (vshape v_short_bytes x, RG_typed_long_in_container);
                    (vshape v_nodup x, RG_dup_keys); (vshape v_atom_keys x, RG_key_build);
@@ -545,3 +545,6 @@ Definition sound_count (c : ccase) : nat * nat :=
   end.
 Definition run_stats (cases : list (nat * ccase)) : list nat :=
   let l := map (fun ic => sound_count (snd ic)) cases in [list_sum (map fst l); list_sum (map snd l)].
+
+(* raw data held in Datum fields has no list-shaped map keys (to_dict cannot render them) *)
+Definition v_raw_nolistkeys (v : pv) : bool := match v with PRaw w => no_list_keys (abs w) | _ => true end.
